@@ -333,8 +333,8 @@ def pollsARF (f : Deframer) : Nat → AB × ARd × Res → List Char → List St
     | _ => (b', r', some res, ch, acc)
 
 /-- the abstract model's run of the harness loop with resume / cancel choices -/
-def modelARF (f : Deframer) (dataLen : Nat) : Nat → Nat → AB → ARd → List Char → List String → List String
-  | 0, _, _, _, _, acc => acc.reverse
+def modelARF (f : Deframer) (dataLen : Nat) : Nat → Nat → AB → ARd → List Char → List String → List String × List Nat
+  | 0, _, _, r, _, acc => (acc.reverse, r.log)
   | n + 1, term, b, r, ch, acc =>
     let (b', r', res, ch', acc') := pollsARF f 1000 (pollLoop f r.fuel b r) ch acc
     let pos := dataLen - r'.rem.length
@@ -344,7 +344,7 @@ def modelARF (f : Deframer) (dataLen : Nat) : Nat → Nat → AB → ARd → Lis
       let s := showRes rr
       let entry := s!"{s}@{hex b'.q}@{pos}"
       let term' := if DrvRF.isTerminal s then term + 1 else 0
-      if term' ≥ 2 then (entry :: acc').reverse else modelARF f dataLen n term' b' r' ch' (entry :: acc')
+      if term' ≥ 2 then ((entry :: acc').reverse, r'.log) else modelARF f dataLen n term' b' r' ch' (entry :: acc')
 
 /-- `ARF <N> <df> <pre> <ri> <asrw> <choices> <maxcalls> | <polls> ; <log>` -/
 def checkARF (pre impl : List String) : Option (List String × Bool) := do
@@ -357,11 +357,18 @@ def checkARF (pre impl : List String) : Option (List String × Bool) := do
   let b0 : AB := { size := n, ri := ri, q := q0 }
   let r0 : ARd := { rem := s.data, acts := acts }
   let ch := if choices == "-" then [] else choices.toList
-  let mpolls := modelARF (dfOf df) s.data.length maxc 0 b0 r0 ch []
+  let (mpolls, mlog) := modelARF (dfOf df) s.data.length maxc 0 b0 r0 ch []
   let cancels := ch.contains 'c'
   let tag := if cancels then "C15" else "C14"
   let mut v : List String := []
-  if mpolls != ipolls then v := "DRIFT" :: s!"DIFF {tag}" :: v
+  -- the scripted reader is positional: when the destination lengths the implementation offers differ from the
+  -- model's (a permitted difference, e.g. compacting lazily) the chunks and the placement of Pending differ too,
+  -- so the polls are comparable with the model's only on equal reader-call sequences; the property's own
+  -- predicates below are evaluated on the implementation's observations in every case
+  let idests := ilog.filterMap fun c => match c.splitOn ":" with | [_, d, _] => d.toNat? | _ => none
+  if mpolls != ipolls then
+    v := "DRIFT" :: v
+    if idests == mlog then v := s!"DIFF {tag}" :: v
   -- the property on the implementation's own polls: with pending / cancelled polls deleted the results are the
   -- specification's; at every cancellation point nothing is lost or duplicated; a poll is Pending only if the reader was
   let calls := ipolls.filter (· != "pending")
@@ -373,6 +380,7 @@ def checkARF (pre impl : List String) : Option (List String × Bool) := do
     if !hasErr || true then
       if !DrvRF.satStream n g s.data obs' (q0 ++ s.data) then v := s!"UNSAT {tag}" :: v
   | none => pure ()
+  if !DrvRF.satOwn s.data obs' (q0 ++ s.data) then v := s!"UNSAT {tag}" :: v
   let npend := (ipolls.filter fun p => p == "pending" || p.startsWith "cancel").length
   let rpend := (ilog.filter fun c => c.endsWith ":pending").length
   if npend != rpend then v := s!"UNSAT {tag}" :: v
